@@ -31,8 +31,9 @@ from .base import (
     event_from_json,
     is_hex,
 )
+from ..auth import Action
 from ..config import Config
-from ..errors import StorageError
+from ..errors import StorageError, AuthenticationError
 
 
 # ids: b'\x00<32 bytes of id>'
@@ -696,6 +697,12 @@ class LMDBStorage(BaseStorage):
             raise
 
         await self.validate_event(event, Config)
+        # check authentication
+        # (the relay's own service events - role assignments are stored as such - always pass)
+        if event.pubkey != self.service_pubkey and not await self.authenticator.can_do(
+            auth_token, Action.save.value, event
+        ):
+            raise AuthenticationError("restricted: permission denied")
 
         if not (0 <= event.created_at < 2**32 and 0 <= event.kind < 2**32):
             # the index keys hold both as 4 bytes; the writer thread could not
